@@ -200,7 +200,8 @@ where
       max_samples_per_instance,
     }) = self.qos.resource_limits
     {
-      Some(max_samples_per_instance)
+      // A negative value is LENGTH_UNLIMITED: no limit
+      Some(max_samples_per_instance).filter(|limit| *limit >= 0)
     } else {
       None
     };
